@@ -95,6 +95,7 @@ type l2World struct {
 	recent             [][]byte   // recently broadcast transactions (client traffic re-uses them)
 	planExecs          string     // the executor list installed by the last executor-change plan (printed form)
 	foreignAddr        bool       // the bound bridge address carries the L1's own bech32 prefix
+	noL1Chain          bool       // the bound bridge info carries an empty L1 chain id
 	caseTwin           string     // an L2-native denom that equals a bridged denom up to letter case ("" if none)
 	hookOuter          *l1Deposit // the deposit a payload is being built for (class nested)
 	lenient            bool       // see l1World
@@ -235,7 +236,7 @@ func newL2WorldOpt(r *core.Run, p *l2Profile, fixedBridge uint64, bases []string
 			}
 		}
 	}
-	for name := range map[string]bool{authtypes.FeeCollectorName: true, opchildtypes.ModuleName: true, authtypes.Minter: true} {
+	for name := range map[string]bool{authtypes.FeeCollectorName: true, opchildtypes.ModuleName: true, authtypes.Minter: true, node.LazyModule: true} {
 		w.m.Blocked[string(authtypes.NewModuleAddress(name))] = true
 	}
 	// genesis validators
@@ -287,6 +288,7 @@ func newL2WorldOpt(r *core.Run, p *l2Profile, fixedBridge uint64, bases []string
 	}
 	w.m.Params = gen.Params
 	w.foreignAddr = fixedBridge == 0 && r.Chance(1, 4)
+	w.noL1Chain = fixedBridge == 0 && p.ClientID == "" && !p.ForceBridgeInfo && r.Chance(1, 5)
 	if p.ClientID != "" || p.ForceBridgeInfo || r.Chance(2, 3) {
 		bi := w.bridgeInfo(p.ClientID)
 		gen.BridgeInfo = &bi
@@ -368,7 +370,11 @@ func (w *l2World) bridgeInfo(clientID string) opchildtypes.BridgeInfo {
 		// the L1 uses another address prefix: the bridge address is an opaque string for the L2's codec
 		addr = "init1qqqsyqcyq5rqwzqfpg9scrgwpugpzysnjscnev"
 	}
-	return opchildtypes.BridgeInfo{BridgeId: w.bridgeID, BridgeAddr: addr, L1ChainId: node.L1ChainID, L1ClientId: clientID,
+	chain := node.L1ChainID
+	if w.noL1Chain {
+		chain = "" // a bridge info that was stored without naming the L1 chain (validation does not ask for it)
+	}
+	return opchildtypes.BridgeInfo{BridgeId: w.bridgeID, BridgeAddr: addr, L1ChainId: chain, L1ClientId: clientID,
 		BridgeConfig: ophosttypes.BridgeConfig{Challenger: w.ustr[0], Proposer: w.ustr[1], BatchInfo: ophosttypes.BatchInfo{Submitter: w.ustr[0], ChainType: 1},
 			SubmissionInterval: time.Minute, FinalizationPeriod: time.Hour, SubmissionStartHeight: 1, OracleEnabled: true}}
 }
@@ -502,7 +508,8 @@ func (w *l2World) deposit(spec *modelL2, seq uint64) *l1Deposit {
 	to := w.pickUser()
 	if w.r.Chance(w.p.BadRcpt, 100) {
 		to = []string{"0x1", "cosmos1notbech32", "", strings.Repeat("z", 300), authtypes.NewModuleAddress(opchildtypes.ModuleName).String(),
-			authtypes.NewModuleAddress(authtypes.FeeCollectorName).String(), sdk.AccAddress(make([]byte, 20)).String(), "init1qqqsyqcyq5rqwzqfpg9scrgwpugpzysnjscnev"}[w.r.Intn(8)]
+			authtypes.NewModuleAddress(authtypes.FeeCollectorName).String(), sdk.AccAddress(make([]byte, 20)).String(), "init1qqqsyqcyq5rqwzqfpg9scrgwpugpzysnjscnev",
+			authtypes.NewModuleAddress(node.LazyModule).String(), authtypes.NewModuleAddress(node.LazyModule).String()}[w.r.Intn(10)]
 	}
 	if w.r.Chance(1, 6) {
 		to = sdk.AccAddress(node.AddrN("fresh", w.r.Intn(1000))).String()
